@@ -108,8 +108,13 @@ def install(world):
     # set_diti
     register(world, Contract(
         func=B + "set_diti", serves=["C09"],
-        scenarios=[Scenario("diti_index:int", lambda ex: {"self": sym_worklist(ex, "EvoWorklist"), "diti_index": sint("diti_index")})],
-        raises=[("InvalidOperationError", "length(records(self)) > 0 and substr(records(self)[length(records(self)) - 1], 0, 1) != 'B'")],
+        scenarios=[Scenario("diti_index:int", lambda ex: {"self": sym_worklist(ex, "EvoWorklist"), "diti_index": sint("diti_index")}),
+                   Scenario("diti_index:numpy int", lambda ex: {"self": sym_worklist(ex, "EvoWorklist"), "diti_index": sint("diti_index", np=True)}),
+                   Scenario("diti_index:float", lambda ex: {"self": sym_worklist(ex, "EvoWorklist"), "diti_index": sreal("diti_index")}),
+                   Scenario("diti_index:str", lambda ex: {"self": sym_worklist(ex, "EvoWorklist"), "diti_index": sstr("diti_index")}),
+                   Scenario("diti_index:None", lambda ex: {"self": sym_worklist(ex, "EvoWorklist"), "diti_index": None})],
+        raises=[("InvalidOperationError", "length(records(self)) > 0 and substr(records(self)[length(records(self)) - 1], 0, 1) != 'B'"),
+                ("ValueError", "(length(records(self)) == 0 or substr(records(self)[length(records(self)) - 1], 0, 1) == 'B') and not (is_integral(diti_index) and diti_index >= 0)")],
         ensures=[("appended", "same(records(self), records(old_self) + ['S;' + fmt_int(diti_index)])", ["C09"])],
         exc_ensures=[UNCHANGED],
         native={"call": "(self.set_diti(diti_index), list(self))[1]", "setup": "old_records = list(self)",
@@ -177,12 +182,13 @@ def rd_args(ex, **over):
 RD_TEXTS = ("src_rack_label", "dst_rack_label", "liquid_class", "src_rack_id", "src_rack_type", "dst_rack_id", "dst_rack_type", "direction")
 POS_OK = "(is_integral(src_start) and src_start >= 0 and is_integral(src_end) and src_end >= 0 and is_integral(dst_start) and dst_start >= 0 and is_integral(dst_end) and dst_end >= 0)"
 DIR_OK = "(direction == 'left_to_right' or direction == 'right_to_left')"
-EXCL_OK = "(is_none(exclude_wells) or forall(0, length(exclude_wells), lambda i: dst_start <= exclude_wells[i] and exclude_wells[i] <= dst_end))"
+EXCL_OK = "(is_none(exclude_wells) or forall(0, length(exclude_wells), lambda i: is_integral(exclude_wells[i]) and dst_start <= exclude_wells[i] and exclude_wells[i] <= dst_end))"
+COUNTS_OK = "(is_integral(diti_reuse) and diti_reuse >= 1 and is_integral(multi_disp) and multi_disp >= 1)"
 VOL_OK = "((is_int(volume) or is_float(volume)) and (not is_nan(volume)) and volume >= 0 and volume <= 7158278)"
-RD_REJECT = (f"(not {DIR_OK}) or (not {POS_OK}) or (not {EXCL_OK}) or (not valid_text32(src_rack_label)) or (not {VOL_OK})"
+RD_REJECT = (f"(not {DIR_OK}) or (not {POS_OK}) or (not {COUNTS_OK}) or (not {EXCL_OK}) or (not valid_text32(src_rack_label)) or (not {VOL_OK})"
              " or (not valid_text(liquid_class)) or (not valid_text32(src_rack_id)) or (not valid_text32(src_rack_type))"
              " or (not valid_text32(dst_rack_label)) or (not valid_text32(dst_rack_id)) or (not valid_text32(dst_rack_type))")
-RD_TOOBIG = f"{DIR_OK} and {POS_OK} and {EXCL_OK} and valid_text32(src_rack_label) and {VOL_OK} and volume > self.max_volume"
+RD_TOOBIG = f"{DIR_OK} and {POS_OK} and {COUNTS_OK} and {EXCL_OK} and valid_text32(src_rack_label) and {VOL_OK} and volume > self.max_volume"
 MD_OUT = "(multi_disp if multi_disp * volume <= self.max_volume else floor_div(self.max_volume, volume))"
 RD_FIELDS = ("[src_rack_label, src_rack_id, src_rack_type, fmt_int(src_start), fmt_int(src_end), dst_rack_label, dst_rack_id,"
              f" dst_rack_type, fmt_int(dst_start), fmt_int(dst_end), fmt_num(volume), liquid_class, fmt_int(diti_reuse), fmt_int({MD_OUT}),"
@@ -221,6 +227,11 @@ def install(world):  # noqa: F811
             Scenario("dst_start:numpy int", lambda ex: rd_args(ex, dst_start=sint("dst_start", np=True))),
             Scenario("liquid_class:None", lambda ex: rd_args(ex, liquid_class=None)),
             Scenario("dst_rack_type:int", lambda ex: rd_args(ex, dst_rack_type=sint("dst_rack_type"))),
+            Scenario("diti_reuse:float", lambda ex: rd_args(ex, diti_reuse=sreal("diti_reuse"))),
+            Scenario("multi_disp:float", lambda ex: rd_args(ex, multi_disp=sreal("multi_disp"))),
+            Scenario("multi_disp:str", lambda ex: rd_args(ex, multi_disp=sstr("multi_disp"))),
+            Scenario("diti_reuse:None", lambda ex: rd_args(ex, diti_reuse=None)),
+            Scenario("exclude_wells:[float]", lambda ex: rd_args(ex, exclude_wells=SeqV.of("list", [sreal("excl0")]))),
         ],
         raises=[("ValueError", RD_REJECT), ("InvalidOperationError", RD_TOOBIG)],
         ensures=[
